@@ -261,11 +261,12 @@ pub struct HookEv {
 #[derive(Clone, Debug, PartialEq)]
 pub enum HookKind {
     Command { kind: &'static str, ids: Vec<usize>, force: bool },
-    BeforePush { free: usize, pending: usize },
+    BeforePush { free: usize, pending: usize, ring: usize },
     PushOutcome { ok: bool },
-    BeforeDrain,
+    BeforeDrain { ring: usize },
     RecvEmpty,
-    Received { kind: &'static str, ids: Vec<usize> },
+    /// `ring`: the receiver being drained (from the preceding BeforeDrain)
+    Received { kind: &'static str, ids: Vec<usize>, ring: usize },
 }
 
 #[derive(Clone, Debug, Default)]
